@@ -4,6 +4,7 @@ CONSTANTS
   Alpha3 <- AlphaSmall
   AlphaC <- AlphaSmall
   MaxC = 2
-INVARIANTS SlicesInBounds OnGrid PrefixAlways ExactPrefix RoundTrip ClosedForm CorruptPrefix EmitScn
+  ShapeAlpha3 <- AlphaSmall
+INVARIANTS SlicesInBounds OnGrid PrefixAlways ExactPrefix RoundTrip ClosedForm CorruptPrefix ShapesConform EmitScn
 PROPERTY Terminates
 CHECK_DEADLOCK FALSE
